@@ -48,11 +48,11 @@ CLAIMED = {
         note=TRUST + "Shim contracts are part of the claim (DESIGN 3.4). Fairness cut: executions of BOOLVECTOR.RAND needing more than size+2 draws are not explored. NAME.RANDBOUNDNAME with a non-empty binding table needs a real HashMap: not covered. Distribution quality is not a safety property.",
         ref="DESIGN.md section 4, C13"),
     "C14": dict(
-        text="Model checking (bounded), sequential single-step part only: (a) Node::new - the only code touching the process-wide counter - hands out strictly increasing ids over any 4 consecutive calls after 0..3 earlier calls; (b) for every Item-free, RAND-free instruction: executing it on two states with identical symbolic contents, with node-id allocation in between, yields identical post-states (no dependence on hidden process state).",
+        text="Model checking (bounded), sequential single-step part only: (a) Node::new - the only code touching the process-wide counter - hands out strictly increasing ids over any 4 consecutive calls after 0..3 earlier calls; (b) for every Item-free, RAND-free instruction: executing it on two states with identical symbolic contents, with node-id allocation and a run of the same instruction on an unrelated, adversarially chosen state in between, yields identical post-states (no dependence on hidden process state such as a counter or an incompletely keyed cache).",
         note=TRUST + "Kani has no thread model: concurrent schedules, the CLI front end, whole-program reproducibility and HashMap iteration order are NOT covered.",
         ref="DESIGN.md section 4, C14"),
     "C15": dict(
-        text="Model checking (bounded): for every Item-free instruction with an INTEGER/FLOAT operand, from every bounded state with integer operands anywhere in [-100000, 100000] (state size <= 9): every loop stays within the unwinding bound 10 and every resulting vector length is <= 9, every stack grows by <= 2. A violated unwinding or length assertion yields the operand; replay runs it natively.",
+        text="Model checking (bounded): for every Item-free instruction with an INTEGER/FLOAT operand, from every bounded state with integer operands anywhere in [-100000, 100000] (state size <= 9): every loop stays within the unwinding bound 10 and every resulting vector length is <= 9, every stack grows by <= 2. A violated length assertion yields the operand and is replayed natively; a violated unwinding assertion that does not show natively (only as time) is escalated to unwind 64 and reported as a solver-only verdict when the loop still does not terminate. CODE.RAND: the size handed to the generator is bounded by the configured maximum for every operand (generator replaced by a recorder).",
         note=TRUST + "Growth of CODE/EXEC items under DUP/LIST/APPEND/EXEC.Y and max_points_in_program (whole-program, Item) and LIST.NEIGHBOR* (symbolic execution of the nested scan does not finish) are NOT covered. The operand-sized allocations of ONES/ZEROS/*.RAND are genuine violations recorded in known_findings.json.",
         ref="DESIGN.md section 4, C15"),
     "C16": dict(
